@@ -124,9 +124,13 @@ def run_property(prop, module, repo='/repo', tier='quick', only=None, overlay=No
     out = []
     src = SourceSet(repo, overlay)
     ctx = Ctx(prop, src, tier, only)
+    floor_error = None
     try:
         module.run(ctx)
-        ctx.check_floors()
+        try:
+            ctx.check_floors()
+        except AnalysisError as e:
+            floor_error = e         # only fatal when no violation was found (a violation is definitive)
     except AnalysisError as e:
         out.append(f'ANALYSIS-ERROR property={prop} {e}')
         if not quiet:
@@ -156,6 +160,11 @@ def run_property(prop, module, repo='/repo', tier='quick', only=None, overlay=No
     for k in stale:
         out.append(f"NOTE property={prop} listed known finding no longer fires: {k['rule']}:{k['construct']}")
     rc = 0
+    if not viol and floor_error is not None:
+        out.append(f'ANALYSIS-ERROR property={prop} {floor_error}')
+        if not quiet:
+            print('\n'.join(out))
+        return 2, ctx, out
     if viol:
         rc = 1
         rdir = os.path.join(VERIF, 'evidence', 'replay')
